@@ -660,7 +660,8 @@ impl Monitors {
                 let mut f = cm.frontier;
                 while f < op.index {
                     let a = &world.ops[f];
-                    let waiting = a.rejected_at_submit.is_none() && !a.resolved_before(rec.index) && !a.appearances.iter().any(|x| x.conn == c);
+                    // an earlier operation that was failed inside this same call (send-time validation, ack timeout) is not waiting
+                    let waiting = a.rejected_at_submit.is_none() && !a.resolved_before(rec.index + 1) && !a.appearances.iter().any(|x| x.conn == c);
                     if waiting {
                         v = Some(("C10.R3-overtaken", format!("op index {} ({}) transmitted while earlier op index {} ({}) is still waiting", op.index, op.kind.name(), a.index, a.kind.name())));
                         break;
